@@ -94,7 +94,7 @@ def c_ruffini(k):
 
 for k in range(0, 10 if THOROUGH else 7):
     u = unit(f"kernels.ruffini[len={k}]", PF, "Polynomial::ruffini", [("self", mk_poly("p", k)), ("z", sym("z"))], c_ruffini(k),
-             lambda res, args, ctx: {"result": res})
+             lambda res, args, ctx: {"result": res}, replay={"kind": "ruffini", "k": k})
     u.extra_contracts = {"Polynomial::from_coefficients_vec": c_from_coefficients_vec}
 
 
@@ -161,7 +161,7 @@ def c_evaluate(k):
 
 for k in range(0, 10 if THOROUGH else 7):
     unit(f"kernels.evaluate[len={k}]", PF, "Polynomial::evaluate", [("self", mk_poly("p", k)), ("value", sym("v"))], c_evaluate(k),
-         lambda res, args, ctx: {"result": res})
+         lambda res, args, ctx: {"result": res}, replay={"kind": "evaluate", "k": k})
 
 
 # ---- results that are polynomials: compared as VALUES in X (independent of trailing zeros) + normalisation of the result
@@ -204,13 +204,13 @@ self_sel = lambda res, args: args[0]
 for (la, lb) in [(a_, b_) for a_ in range(0, 4) for b_ in range(0, 4)]:
     tag = f"[len={la},{lb}]"
     unit(f"kernels.poly_add{tag}", PF, "<Polynomial as Add<&'aPolynomial>>::add", [("self", mk_poly("a", la)), ("other", mk_poly("b", lb))],
-         binop_contract(1), out_poly(res_sel))
+         binop_contract(1), out_poly(res_sel), replay={"kind": "poly_binop", "la": la, "lb": lb, "op": "add"})
     unit(f"kernels.poly_sub{tag}", PF, "<Polynomial as Sub<&'aPolynomial>>::sub", [("self", mk_poly("a", la)), ("other", mk_poly("b", lb))],
-         binop_contract(-1), out_poly(res_sel))
+         binop_contract(-1), out_poly(res_sel), replay={"kind": "poly_binop", "la": la, "lb": lb, "op": "sub"})
     unit(f"kernels.poly_add_assign{tag}", PF, "<Polynomial as AddAssign<&'aPolynomial>>::add_assign", [("self", mk_poly("a", la)), ("other", mk_poly("b", lb))],
-         binop_contract(1), out_poly(self_sel))
+         binop_contract(1), out_poly(self_sel), replay={"kind": "poly_binop", "la": la, "lb": lb, "op": "add_assign"})
     unit(f"kernels.poly_sub_assign{tag}", PF, "<Polynomial as SubAssign<&'aPolynomial>>::sub_assign", [("self", mk_poly("a", la)), ("other", mk_poly("b", lb))],
-         binop_contract(-1), out_poly(self_sel))
+         binop_contract(-1), out_poly(self_sel), replay={"kind": "poly_binop", "la": la, "lb": lb, "op": "sub_assign"})
     unit(f"kernels.poly_add_assign_scaled{tag}", PF, "<Polynomial as AddAssign<(BlsScalar,&'aPolynomial)>>::add_assign",
          [("self", mk_poly("a", la)), ("arg", (lambda lb=lb: VTuple([Sym("f"), mk_poly("b", lb)()])))],
          binop_contract(1), out_poly(self_sel))
